@@ -537,12 +537,20 @@ func ConnectionEnd(d *fw.Driver, res *fw.Result, seed int64, thorough bool) erro
 		return err
 	}
 	base += 50
-	return rawEnd(res, seed, "partial-frame-server-cancel", base)
+	if err := rawEnd(res, seed, "partial-frame-server-cancel", base); err != nil {
+		return err
+	}
+	base += 50
+	if err := rawEnd(res, seed, "stalled-writer-server-cancel", base); err != nil {
+		return err
+	}
+	base += 50
+	return rawEnd(res, seed, "reverse-call-write-fails-rst", base)
 }
 
 // rawEnd: connection ends seen from a peer that is not this library's client.
 func rawEnd(res *fw.Result, seed int64, mode string, base int) error {
-	e, err := scen.NewEnv(seed+int64(base), 1, jsonrpc.WithServerPingInterval(10*time.Millisecond))
+	e, err := scen.NewEnv(seed+int64(base), 1, jsonrpc.WithServerPingInterval(10*time.Millisecond), jsonrpc.WithReverseClient[scen.Rev]("rev"))
 	if err != nil {
 		return err
 	}
@@ -566,7 +574,32 @@ func rawEnd(res *fw.Result, seed int64, mode string, base int) error {
 		time.Sleep(time.Millisecond)
 	}
 	switch mode {
-	case "stalled-writer-fin":
+	case "reverse-call-write-fails-rst":
+		// a handler makes a reverse call whose request is far larger than the socket buffers, to a peer that
+		// never reads: the main loop is stuck writing it; then the peer resets the connection, the write fails
+		conn.WriteMessage(websocket.TextMessage, []byte(fmt.Sprintf(`{"jsonrpc":"2.0","id":2,"method":"SH.CallBackBig","params":[%d,%d]}`, base+2, 48<<20)))
+		toks = append(toks, base+2)
+		for w := 0; w < 3000 && h.C.Entered(base+2) == 0; w++ {
+			time.Sleep(time.Millisecond)
+		}
+		stalledSince := time.Time{}
+		for w := 0; w < 5000; w++ {
+			if e.RT.Count("w.begin") > e.RT.Count("w.end") {
+				if stalledSince.IsZero() {
+					stalledSince = time.Now()
+				} else if time.Since(stalledSince) > 80*time.Millisecond {
+					break
+				}
+			} else {
+				stalledSince = time.Time{}
+			}
+			time.Sleep(time.Millisecond)
+		}
+		if tc != nil {
+			tc.SetLinger(0)
+		}
+		conn.Close()
+	case "stalled-writer-fin", "stalled-writer-server-cancel":
 		// a response far larger than the socket buffers, to a peer that never reads: the writer holds the
 		// write lock, the pinger queues behind it
 		conn.WriteMessage(websocket.TextMessage, []byte(fmt.Sprintf(`{"jsonrpc":"2.0","id":2,"method":"SH.Echo","params":[%d,%d]}`, base+2, 48<<20)))
@@ -591,7 +624,9 @@ func rawEnd(res *fw.Result, seed int64, mode string, base int) error {
 		if stalledSince.IsZero() || time.Since(stalledSince) < 80*time.Millisecond {
 			res.Note("raw-end stalled-writer: the response writer did not stall (socket buffers took the whole response); scenario not exercised")
 		}
-		if tc != nil {
+		if mode == "stalled-writer-server-cancel" {
+			e.SrvCancel()
+		} else if tc != nil {
 			tc.CloseWrite()
 		}
 	case "partial-frame-server-cancel":
@@ -625,8 +660,23 @@ func rawEnd(res *fw.Result, seed int64, mode string, base int) error {
 	for w := 0; w < 3000 && !h.C.Exited(base+1); w++ {
 		time.Sleep(time.Millisecond)
 	}
-	conn.Close()
-	// (2) nothing is retained once the handlers have returned
+	if mode == "reverse-call-write-fails-rst" {
+		// the handler inside the reverse call must come back (the call fails), not stay blocked
+		ok2 := false
+		for w := 0; w < 5000; w++ {
+			if h.C.Exited(base + 2) {
+				ok2 = true
+				break
+			}
+			time.Sleep(time.Millisecond)
+		}
+		if !ok2 {
+			res.Add(fw.Finding{Kind: "monitor", Signature: sig + " reverse call never returns", Detail: "a handler inside a reverse call whose request could not be written was still blocked 5s after the connection was reset",
+				Case: map[string]interface{}{"scenario": "raw-end", "mode": mode}})
+		}
+	}
+	// (2) nothing is retained once the handlers have returned — without any further help from the peer:
+	// the server closes the socket itself, which is what fails a write that is still stuck
 	left, digest := 0, ""
 	for w := 0; w < 600; w++ {
 		left, digest = serverGoroutines()
@@ -640,6 +690,7 @@ func rawEnd(res *fw.Result, seed int64, mode string, base int) error {
 			Detail: fmt.Sprintf("%d goroutine(s) labelled for the dead server connection are still alive 3s after its handlers returned: %s", left-before, digest),
 			Case:   map[string]interface{}{"scenario": "raw-end", "mode": mode}})
 	}
+	conn.Close()
 	res.Count("rawend." + mode)
 	res.Eval(true, []interface{}{"c15", "raw-end", mode})
 	return nil
